@@ -19,6 +19,7 @@ import (
 	"os"
 	"path/filepath"
 	"sort"
+	"strings"
 
 	hg "github.com/mosaicnetworks/babble/src/hashgraph"
 	bnet "github.com/mosaicnetworks/babble/src/net"
@@ -52,6 +53,17 @@ func (w *World) txsOf(shape string) [][]byte {
 	return res
 }
 
+// respelled: the same peer with its public key written 0x + lower-case hex (a valid
+// spelling that must survive every conversion untouched: the string is part of the
+// hashed and signed bytes)
+func respelled(p *peers.Peer) *peers.Peer {
+	q := *p
+	if len(q.PubKeyHex) > 2 {
+		q.PubKeyHex = "0x" + strings.ToLower(q.PubKeyHex[2:])
+	}
+	return &q
+}
+
 func (w *World) itxsOf(shape string, signer *Part) []hg.InternalTransaction {
 	n := 0
 	switch shape {
@@ -70,7 +82,8 @@ func (w *World) itxsOf(shape string, signer *Part) []hg.InternalTransaction {
 		if k%2 == 0 {
 			t = hg.NewInternalTransactionJoin(*signer.Peer)
 		} else {
-			t = hg.NewInternalTransactionLeave(*signer.Peer)
+			// (every second request names its peer in the lower-case spelling)
+			t = hg.NewInternalTransactionLeave(*respelled(signer.Peer))
 		}
 		t.Sign(signer.Key)
 		res = append(res, t)
@@ -317,8 +330,12 @@ func (w *World) runBlockCases(cases []codecCase, dir string, emit func(c codecCa
 	}
 	vals := w.parts[:3]
 	ps := []*peers.Peer{}
-	for _, p := range vals {
-		ps = append(ps, p.Peer)
+	for i, p := range vals {
+		if i == 1 {
+			ps = append(ps, respelled(p.Peer))
+		} else {
+			ps = append(ps, p.Peer)
+		}
 	}
 	outs := make([]codecOut, len(cases))
 	blocks := make([]*hg.Block, len(cases))
@@ -446,8 +463,12 @@ func (w *World) buildFrame(c codecCase, round int, reverse bool) *hg.Frame {
 	np := c.i("npeers")
 	parts := w.parts[:np]
 	ps := []*peers.Peer{}
-	for _, p := range parts {
-		ps = append(ps, p.Peer)
+	for i, p := range parts {
+		if i%2 == 1 {
+			ps = append(ps, respelled(p.Peer)) // every second peer of the frame in the lower-case spelling
+		} else {
+			ps = append(ps, p.Peer)
+		}
 	}
 	mkEvent := func(p *Part, idx int, sp string) *hg.FrameEvent {
 		e := hg.NewEvent([][]byte{{byte(idx), byte(round)}}, nil, nil, []string{sp, ""}, p.Pub, idx)
